@@ -15,5 +15,6 @@ CONSTANTS
   SignalOnInsert = TRUE
   FirstSighting = TRUE
   SeedAtomic = TRUE
+  RegisterInThunk = TRUE
 INVARIANT P_C18_WakePending
 CHECK_DEADLOCK FALSE
